@@ -3,6 +3,7 @@ import ast
 import itertools
 
 from ..core import astutil as A
+from ..core import match as M
 from ..core.mirror import canon
 from ..core.model import dotted
 
@@ -67,6 +68,37 @@ class SetEval:
         raise ValueError(f"set expression {A.unparse(e)[:50]}")
 
 
+COMPS = (ast.GeneratorExp, ast.ListComp, ast.SetComp, ast.DictComp)
+
+
+def alpha(node):
+    """copy of an expression with comprehension-bound variables replaced by positional placeholders (_b0, _b1, ..):
+    the spelling of a bound variable is not behaviour"""
+    n_ = itertools.count()
+
+    def go(n, env):
+        if isinstance(n, ast.Name):
+            return ast.Name(id=env.get(n.id, n.id), ctx=ast.Load())
+        if isinstance(n, COMPS):
+            env, gens = dict(env), []
+            for g in n.generators:
+                it = go(g.iter, env)
+                for t in ast.walk(g.target):
+                    if isinstance(t, ast.Name):
+                        env[t.id] = f"_b{next(n_)}"
+                gens.append(ast.comprehension(target=go(g.target, env), iter=it, ifs=[go(i, env) for i in g.ifs], is_async=g.is_async))
+            if isinstance(n, ast.DictComp):
+                return ast.DictComp(key=go(n.key, env), value=go(n.value, env), generators=gens)
+            return type(n)(elt=go(n.elt, env), generators=gens)
+        if isinstance(n, ast.AST):
+            return type(n)(**{f: go(v, env) for f, v in ast.iter_fields(n)})
+        if isinstance(n, list):
+            return [go(x, env) for x in n]
+        return n
+
+    return go(node, {})
+
+
 def norm_cmp(node):
     """canonical text; constant-on-the-left orderings are flipped"""
     if isinstance(node, ast.Compare) and len(node.ops) == 1 and isinstance(node.left, ast.Constant):
@@ -113,14 +145,39 @@ def run(ctx):
     # missing_vars := variables - problem.variables.keys()  => flags not yet declared; after the four declarations
     # that is "not in IUSE" (every IUSE flag was declared) — encoded as an extra set
     se = SetEval(f)
+    # the solver object = what add_variable is called on (a local; its spelling is free)
+    solvers = {A.unparse(c.func.value) for c in adds if isinstance(c.func, ast.Attribute)}
+    ctx.require(len(solvers) == 1, f"find_constraint_satisfaction: add_variable is called on {sorted(solvers)}, expected one solver object")
+    solver = next(iter(solvers))
+
+    def reads_solver_variables(e):
+        return any(isinstance(n, ast.Attribute) and n.attr == "variables" and A.unparse(n.value) == solver for n in ast.walk(e))
+
+    def late_declaration(c, expr):
+        """the declared flags depend on the per-constraint loop variables or on what the solver has declared so far
+        (followed through local definitions): this is the catch-up declaration, not one of the up-front ones"""
+        loop = A.enclosing(c, ast.For)
+        per_item = set(A.assigned_names(loop.target)) if loop is not None else set()
+        seen, todo = set(), [expr]
+        while todo:
+            e = todo.pop()
+            if reads_solver_variables(e):
+                return True
+            for n in A.names_in(e):
+                if n in per_item:
+                    return True
+                if n not in seen and n in se.defs and n not in ps:
+                    seen.add(n)
+                    todo.append(se.defs[n])
+        return False
+
     declared = []  # (domain, predicate(region))
     missing_calls = []
     for c in adds:
         dom = A.try_literal(c.args[0]) if c.args else None
         ctx.require(isinstance(dom, tuple) and len(c.args) == 2 and isinstance(c.args[1], ast.Starred), f"add_variable call not understood: {A.unparse(c)[:70]}")
         expr = c.args[1].value
-        names = A.names_in(expr)
-        if "missing_vars" in names or any("variables" in A.unparse(expr) for _ in [0] if "problem" in A.unparse(expr)):
+        if late_declaration(c, expr):
             missing_calls.append((c, dom))
             continue
         declared.append((c, dom, expr))
@@ -158,7 +215,7 @@ def run(ctx):
         # what "missing" is computed against must be the declared variables, not a caller-supplied set
         par = A.enclosing(c, ast.If)
         src = A.unparse(par.test) if par is not None else ""
-        ctx.check("R1", f, "problem.variables" in src, "missing-vars-source", "undeclared flags are computed against the solver's declared variables",
+        ctx.check("R1", f, par is not None and reads_solver_variables(par.test), "missing-vars-source", "undeclared flags are computed against the solver's declared variables",
                   f"undeclared flags are computed from `{src}` instead of the solver's declared variables", node=c)
     ctx.floor("R1", 12)
 
@@ -175,8 +232,10 @@ def run(ctx):
     single = P.func("pkgcore.restrictions.required_use", "__to_single_constraint")
     multi = P.func("pkgcore.restrictions.required_use", "__to_multiple_constraint")
     arms = {}
-    node = single.node.body[0]
-    ctx.require(isinstance(node, ast.If), "__to_single_constraint: isinstance chain not found")
+    node = next((s for s in single.node.body if isinstance(s, ast.If)), None)  # first branching statement, wherever it sits
+    ctx.require(node is not None and M.has(node.test, "isinstance($_, $_)"), "__to_single_constraint: isinstance chain not found")
+    before = single.node.body[: single.node.body.index(node)]
+    ctx.require(all(isinstance(s, (ast.Expr, ast.Assign, ast.AnnAssign, ast.Assert, ast.Pass)) for s in before), "__to_single_constraint: control flow ahead of the isinstance chain not understood")
     cur = node
     has_else_raise = False
     while isinstance(cur, ast.If):
@@ -218,9 +277,10 @@ def run(ctx):
     # multi: conditional arm uses the condition's negate as well
     mc = [c for c in A.calls(multi.node) if dotted(c.func) == "__condition"]
     ctx.require(mc, "__to_multiple_constraint: __condition call not found")
+    msubject = multi.params()[0] if multi.params() else ""
     for c in mc:
-        neg, vals = A.unparse(c.args[0]), A.unparse(c.args[1])
-        ok = neg.endswith(".negate") and neg[: -len(".negate")] + ".vals" in vals and not neg.startswith("restrict.negate")
+        neg, vals = (A.unparse(c.args[0]) if c.args else ""), (A.unparse(c.args[1]) if len(c.args) > 1 else "")
+        ok = neg.endswith(".negate") and neg[: -len(".negate")] + ".vals" in vals and neg != msubject + ".negate"
         ctx.check("R2", multi, ok, "negate:Conditional-top", "a top-level conditional is compiled with its condition's own negate flag and flags", f"top-level conditional passes negate=`{neg}` flags=`{vals}`", node=c)
     ctx.floor("R2", 14)
 
@@ -231,15 +291,19 @@ def run(ctx):
         ctx.require(len(inner) == 1, f"{name}: inner check closure not found")
         rets = A.returns(P.func("pkgcore.restrictions.required_use", f"{name}.<locals>.{inner[0].name}").node)
         ctx.require(len(rets) == 1, f"{name}: closure has {len(rets)} returns")
-        got = canon(norm_cmp(rets[0].value))
-        want_c = canon(norm_cmp(ast.parse(want.replace(" LtE ", " <= "), mode="eval").body))
-        ctx.check("R3", fn, got == want_c, f"closure:{name}", f"{name} computes `{want.replace(' LtE ', ' <= ')}`", f"{name} computes `{got}`, expected `{want_c}`", node=rets[0])
+        # comprehension-bound variables are compared by position, not by spelling
+        got = canon(norm_cmp(alpha(rets[0].value)))
+        want_c = canon(norm_cmp(alpha(ast.parse(want.replace(" LtE ", " <= "), mode="eval").body)))
+        ctx.check("R3", fn, got == want_c, f"closure:{name}", f"{name} computes `{want.replace(' LtE ', ' <= ')}`", f"{name} computes `{A.unparse(rets[0].value)}`, expected `{want.replace(' LtE ', ' <= ')}`", node=rets[0])
         outer_ret = [r for r in A.returns(fn.node) if isinstance(r.value, ast.Name) and r.value.id == inner[0].name]
         ctx.check("R3", fn, bool(outer_ret), f"closure-returned:{name}", f"{name} returns its closure")
     w = P.func("pkgcore.restrictions.required_use", "__wrapper")
     inner = P.func("pkgcore.restrictions.required_use", "__wrapper.<locals>.check")
-    txt = A.unparse(A.returns(inner.node)[0].value)
-    ctx.check("R3", w, txt == "constraint_func(frozenset((k for k, v in kwargs.items() if v)))", "wrapper-on-set", "the solver assignment is converted to the set of flags that are on", f"__wrapper passes `{txt}`")
+    wrets = A.returns(inner.node)
+    ctx.require(len(wrets) == 1, f"__wrapper: closure has {len(wrets)} returns")
+    txt = A.unparse(wrets[0].value)
+    ok = M.pat("constraint_func(frozenset($k for $k, $v in kwargs.items() if $v))").matches(wrets[0].value) is not None
+    ctx.check("R3", w, ok, "wrapper-on-set", "the solver assignment is converted to the set of flags that are on", f"__wrapper passes `{txt}`")
     ctx.floor("R3", 13)
 
 
